@@ -76,6 +76,24 @@ def rowOk (r : String × String × String × Bool × List String) : Bool :=
     | none => false) ||
   ((fn, st, f, w) ∈ exceptions)
 
+/-- the lock hierarchy: a mutex may only be acquired while holding mutexes of strictly smaller rank -/
+def lockRank : String → Nat
+  | "FSM.restoreMu" => 0
+  | "HTTP.mu" => 1
+  | "IRCServer.sessionsMu" => 2
+  | "IRCServer.ConfigMu" => 3
+  | "IRCServer.lastProcessedMu" => 4
+  | "FSM.sessionExpirationMu" => 4
+  | "HTTP.getMessagesRequestsMu" => 4
+  | "OutputStream.messagesMu" => 5
+  | "OutputStream.cacheMu" => 6
+  | "LevelDBStore.mu" => 5
+  | "ircServerMu" => 5
+  | _ => 100
+
+/-- acquisitions that break the lock order (for diagnostics) -/
+def orderOffending : List (String × String × String) := lockOrder.filter (fun e => !decide (lockRank e.1 < lockRank e.2.1))
+
 /-- the rows of the regenerated table that break the discipline (for diagnostics) -/
 def offending : List (String × String × String × Bool × List String) := accesses.filter (fun r => !rowOk r)
 
